@@ -8,7 +8,7 @@ VARIABLE l
 Trace == ndJsonDeserialize(TraceFile)
 
 FirstDiff(a, b) == IF \E i \in 1..Len(a) : a[i] # b[i] THEN CHOOSE i \in 1..Len(a) : a[i] # b[i] /\ \A j \in 1..(i - 1) : a[j] = b[j] ELSE 0
-Fields == <<"ok", "signedOK", "subjectOK", "annOK", "pushed", "artSame", "callerSame">>
+Fields == <<"ok", "signedOK", "subjectOK", "annOK", "pushed", "artSame", "callerSame", "asked">>
 DiffFields(e, o) == {Fields[k] : k \in {k \in 1..Len(Fields) : e[Fields[k]] # o[Fields[k]]}}
 
 Exp(line) == SRunCalls(line.in.art, 0, line.in.calls, 1)
@@ -20,6 +20,7 @@ Why(line) == IF Len(line.obs.calls) # Len(Exp(line)) THEN "length"
              ELSE LET i == FirstDiff(Exp(line), line.obs.calls) IN
                   IF i = 0 THEN "-"
                   ELSE IF "annOK" \in DiffFields(Exp(line)[i], line.obs.calls[i]) THEN "signer-annotations-" \o line.in.art.signerAnn
+                  ELSE IF line.in.calls[i].opt # "ok" THEN "options-" \o line.in.calls[i].opt
                   ELSE "metadata-" \o line.in.calls[i].meta
 
 Init == l = 1
